@@ -14,6 +14,8 @@ Quick reference
         final = observe(world)             # still inside the patch is fine: main-thread acquires are uncontended
 
     ex = explore(run_once, nthreads=2, bound=2)      # run_once(policy) -> RunResult, must build a FRESH world each call
+    ex = explore(run_once, 2, 2, point_filter=f)     # f(RunResult.where[s]) -> bool: pre-empt only where the pending bytecode of
+                                                     # the running worker matters (code object | 'lock' | 'explicit' | None)
     for preemptions, res in ex: ...
     ex.complete, ex.runs, ex.completed_bound, ex.stop_reason, ex.nondeterministic
 
